@@ -462,6 +462,45 @@ func c08Merge(c *Ctx, p *Prog, ms map[string]*ssa.Function) {
 			})
 			c.Check(found && fromOld, "C08-R5", name+":ColorNone-merge:"+comp, p.pos(fn.Pos()), fmt.Sprintf("tests %s == ColorNone: %v; takes the old %s from currStyle: %v", comp, found, comp, fromOld))
 		}
+		// the test must look at the caller's style for every cell: when the merge works on a local
+		// copy, the copy is taken afresh on every cycle through the test (a copy made once before a
+		// loop is no longer ColorNone after the first cell, and the first cell's colour is smeared)
+		eachInstr(fn, func(in ssa.Instruction) {
+			bo, ok := in.(*ssa.BinOp)
+			if !ok || (bo.Op != token.EQL && bo.Op != token.NEQ) {
+				return
+			}
+			if k, isK := bo.Y.(*ssa.Const); !isK || k.Value == nil || k.Value.ExactString() != none {
+				return
+			}
+			ld, ok := bo.X.(*ssa.UnOp)
+			if !ok || ld.Op != token.MUL {
+				return
+			}
+			fa, ok := ld.X.(*ssa.FieldAddr)
+			if !ok {
+				return
+			}
+			al, ok := fa.X.(*ssa.Alloc)
+			if !ok {
+				return
+			}
+			ref, _, _ := fieldAddrRef(fa)
+			// whole-value initialisations of the copy
+			var inits []*ssa.Store
+			for _, r := range referrers(al) {
+				if st, ok := r.(*ssa.Store); ok && st.Addr == ssa.Value(al) {
+					inits = append(inits, st)
+				}
+			}
+			okFresh := len(inits) > 0
+			for _, st := range inits {
+				if !st.Block().Dominates(bo.Block()) || !everyCycleThrough(bo.Block(), st.Block()) {
+					okFresh = false
+				}
+			}
+			c.Check(okFresh, "C08-R5", name+":ColorNone-test-on-fresh-copy:"+ref.Name, p.pos(bo.Pos()), "the style tested against ColorNone is (re)initialised from the argument on every cycle through the test")
+		})
 	}
 }
 
@@ -648,4 +687,26 @@ func c08Width(c *Ctx, p *Prog, rule string) {
 	if n < 3 {
 		c.Undecided(rule, "currMain stores", "-", fmt.Sprintf("only %d stores to cell.currMain found", n))
 	}
+}
+
+// everyCycleThrough: every control-flow cycle through block site passes through block must.
+func everyCycleThrough(site, must *ssa.BasicBlock) bool {
+	if site == must {
+		return true
+	}
+	seen := map[*ssa.BasicBlock]bool{}
+	stack := append([]*ssa.BasicBlock{}, site.Succs...)
+	for len(stack) > 0 {
+		b := stack[len(stack)-1]
+		stack = stack[:len(stack)-1]
+		if seen[b] || b == must {
+			continue
+		}
+		seen[b] = true
+		if b == site {
+			return false
+		}
+		stack = append(stack, b.Succs...)
+	}
+	return true
 }
